@@ -133,7 +133,7 @@ def units(tier, seed):
   # the seed only rotates the order in which units are handed out (by an even
   # amount, so the alternation at the head is kept)
   r = (2 * seed) % len(us)
-  return us[r:] + us[:r]
+  return us[r:] + us[:r] + [dict(part='hollow')]
 
 
 def setup_worker():
@@ -148,6 +148,8 @@ def run_unit(unit):
   res['_vcount'] = {}
   if unit['part'] == 'tree':
     _run_trees(res, unit)
+  elif unit['part'] == 'hollow':
+    _run_hollow(res)
   else:
     _run_states(res, unit)
   res['extra'] = {f'violations_{k}': v for k, v in res.pop('_vcount').items()}
@@ -897,3 +899,93 @@ def _pair_clauses(res, call, expect, S, ma, mb, xid, cid, case):
            'replace_by_pure_dict(a, to_pure_dict(b)): values of b at its paths, everything '
            'else (types, other paths) from a')
   core.outcome(res, f'pair |a|={len(ma)} |b|={len(mb)} common={len(set(ma) & set(mb))}')
+
+
+def _run_hollow(res):
+  """States that contain empty sub-dicts (no paths below them): merging such a state, before
+  or after a populated one, neither adds nor removes a path; | and - likewise."""
+  import itertools
+  from flax import nnx
+  from flax.nnx import statelib
+
+  def leaf(v):
+    return nnx.VariableState(nnx.Param, v)
+
+  def mk(spec):
+    """spec: nested dict with ints as leaves and {} as empty sub-dicts"""
+    def conv(d):
+      return {k: (conv(v) if isinstance(v, dict) else leaf(v)) for k, v in d.items()}
+    return nnx.State(conv(spec))
+
+  def paths(state):
+    return {tuple(p): int(v.value) for p, v in nnx.to_flat_state(state)}
+
+  specs = [
+    {'x': {'a': 1, 'b': 2}, 'y': 3},
+    {'x': {}},
+    {'x': {'a': {}}},
+    {'x': {'a': 5}},
+    {'y': {}},
+    {},
+    {'x': {'b': {}} , 'z': 9},
+  ]
+
+  def model_paths(spec, prefix=()):
+    out = {}
+    for k, v in spec.items():
+      if isinstance(v, dict):
+        out.update(model_paths(v, prefix + (k,)))
+      else:
+        out[prefix + (k,)] = v
+    return out
+
+  def conflict(ms):
+    """a leaf path of one state that is a proper prefix of a path in another: not mergeable"""
+    allp = [set(m) for m in ms]
+    for i, a in enumerate(allp):
+      for j, b in enumerate(allp):
+        if i != j and any(len(q) > len(p) and q[:len(p)] == p for p in a for q in b):
+          return True
+    return False
+
+  for n in (2, 3):
+    for combo in itertools.product(range(len(specs)), repeat=n):
+      sp = [specs[i] for i in combo]
+      ms = [model_paths(s_) for s_ in sp]
+      if conflict(ms):
+        continue
+      exp = {}
+      for m in ms:
+        exp.update(m)
+      key = f'hollow|{list(combo)}'
+      res['evals'] += 1
+      try:
+        got = paths(nnx.merge_state(*[mk(s_) for s_ in sp]))
+      except Exception as e:  # noqa
+        core.violation(res, f'hollow-merge-raises|{key}', f'{type(e).__name__}: {str(e)[:200]}',
+                       dict(states=sp))
+        continue
+      if got != exp:
+        core.violation(res, f'hollow-merge|{key}',
+                       'merge_state with a state that holds an empty sub-dict is not the union of '
+                       'paths with later states winning', dict(states=sp),
+                       observed=sorted(map(list, got)), expected=sorted(map(list, exp)))
+      if n == 2:
+        res['evals'] += 2
+        a, b = mk(sp[0]), mk(sp[1])
+        if paths(a | b) != exp:
+          core.violation(res, f'hollow-or|{key}', 'a | b is not the union of paths', dict(states=sp))
+        try:
+          d = paths(a - b)
+          want = {p: v for p, v in ms[0].items() if p not in ms[1]}
+          if d != want:
+            core.violation(res, f'hollow-diff|{key}', 'a - b is not the paths of a absent from b',
+                           dict(states=sp), observed=sorted(map(list, d)),
+                           expected=sorted(map(list, want)))
+        except Exception as e:  # noqa
+          core.violation(res, f'hollow-diff-raises|{key}', f'{type(e).__name__}: {str(e)[:200]}',
+                         dict(states=sp))
+      core.outcome(res, 'hollow:ok')
+      if any(not m for m in ms) or any(s_ != {} and not model_paths(s_) for s_ in sp):
+        res['nontrivial'].append(core.h(key))
+  res['samples'].append(dict(part='hollow', states=specs[:3]))
